@@ -530,7 +530,7 @@ def _struct_pack(
     tod = int(tod_[:2]) * 60 + int(tod_[3:])
 
     if SZ_HEAT_SETPOINT in switchpoint:
-        val = int(switchpoint[SZ_HEAT_SETPOINT] * 100)  # type: ignore[typeddict-item]
+        val = round(switchpoint[SZ_HEAT_SETPOINT] * 100)  # type: ignore[typeddict-item]
     else:
         val = int(bool(switchpoint[SZ_ENABLED]))
 
